@@ -88,8 +88,6 @@ GROUPS["writer_digits"] = dict(_WRITER_COMMON, **{
         ("digits_u8", {"cost": 3, "what": "u8"}),
         ("digits_i16", {"cost": 4, "tiers": T, "what": "i16"}),
         ("digits_u16", {"cost": 4, "tiers": T, "what": "u16"}),
-        ("digits_i32", {"cost": 8, "tiers": T, "flags": ["--default-unwind", "12"], "what": "i32"}),
-        ("digits_u32", {"cost": 8, "tiers": T, "flags": ["--default-unwind", "12"], "what": "u32"}),
     ],
 })
 
@@ -476,12 +474,12 @@ PROPERTIES["C16"] = {
 PROPERTIES["C11"] = {
     "level": "model_checking",
     "groups": ["writer_step", "writer_digits"],
-    "claim": "Bounded model checking (SAT) of one inductive step per operation of the real DeferredWriter from an arbitrary invariant-satisfying state (buffer content and fill level, parked error or not) against nondeterministic sink stubs; a symbolic witness stream position proves in-order, exactly-once delivery for every position at once; integer formatting is checked for all values of the 8/16(/32)-bit types.",
-    "level_note": "Buffer capacity is WCAP (the real constant is 16 KiB; the code is capacity-generic, the harness builds the struct with a small capacity); slices up to MAXS >= 2*WCAP+1 bytes; sinks: accept-all, one short write + one Interrupted, failing at an arbitrary call. 64/128-bit itoap formatting is outside (external crate, not finished within caps). Trusted: Kani/CBMC/cadical.",
+    "claim": "Bounded model checking (SAT) of one inductive step per operation of the real DeferredWriter from an arbitrary invariant-satisfying state (buffer content and fill level, parked error or not) against nondeterministic sink stubs; a symbolic witness stream position proves in-order, exactly-once delivery for every position at once; integer formatting is checked for all values of the 8- and 16-bit types.",
+    "level_note": "Buffer capacity is WCAP (the real constant is 16 KiB; the code is capacity-generic, the harness builds the struct with a small capacity); slices up to MAXS >= 2*WCAP+1 bytes; sinks: accept-all, one short write + one Interrupted, failing at an arbitrary call. 32/64/128-bit formatting is outside: itoap (external crate) uses SSE2 intrinsics there (simd_cast), which Kani cannot encode. Trusted: Kani/CBMC/cadical.",
     "functions": ["DeferredWriter::{write_all_defer_err, write_all_defer_err_cold, flush_defer_err, buf_write_ptr, advance_unchecked, check_io_error, Write::write, Write::write_all, Write::flush, Drop::drop}", "flussab::write::text::{ascii_digits, ascii_digits_cold}", "itoap::{write_to_ptr, write} (as compiled)"],
     "explanation": "Step induction on the real writer: Inv = (base + buf.len() == written, the buffer holds the most recently written bytes, a byte already seen by the sink lies below the buffer, with a never-failing sink every byte below the buffer has been seen). Each operation is run once with arbitrary arguments; the sink stub checks the byte arriving as stream offset W and that it arrives once; with a failing sink: writes return Ok, the error is reported exactly once by the next flush/check_io_error, the sink is not called while an error is parked.",
     "bounds_note": "capacity WCAP, slice length <= MAXS, at most one Interrupted and one short write per operation",
-    "outside": ["sink panics (the `panicked` flag)", "64/128-bit integer formatting", "capacities other than WCAP (code is generic in the capacity)"],
+    "outside": ["sink panics (the `panicked` flag)", "32/64/128-bit integer formatting (itoap SIMD path, not encodable by Kani)", "capacities other than WCAP (code is generic in the capacity)"],
     "assumptions": ["Write stub honours the Write contract (accepts 1..=len bytes or fails)"],
 }
 
